@@ -47,7 +47,7 @@ PROPS["C09"] = dict(
          "relevant squares (with random noise elsewhere); each compared with the coordinate definitions of geom/Geometry.v",
     trusted_base=["translator/rs2v.py for the seven geometry tables; accessors and constants of chess-lookup/src/lib.rs hand-modelled in geom/Lookup.v",
                   "the randomised magic search of chess-lookup-generator is not re-run (its output is characterised by C08)"],
-    open=["pawn_quiets/pawn_attacks generic-in-occupancy theorem (lk_pawn_quiets = pawn_quiets_spec for all occ) is compared exhaustively on the relevant squares but not yet proved in Coq"],
+    open=[],
 )
 
 PROPS["C16"] = dict(
@@ -121,8 +121,7 @@ PROPS["C01"] = dict(
          "legal triples, and on every 40th position the full set {m | is_legal m} over all 20480 triples; systematic en-passant family "
          "(own king x capturer x double-stepped pawn x one enemy slider; quick: 1/40 sample, thorough: all), pin family (own king x 8 directions x distances x pinned piece type x pinner type, + a random extra enemy man; quick: 16 random 1/64 samples, thorough: 16 x 1/2) castling family (both kings at home + one extra man of any kind on any square, or the enemy king anywhere instead of at home; all rights subsets), the check-giving families of C03 (successors of e.p., promotion, castling, discovered checks) and, thorough only, the EXHAUSTIVE family of all accepted placements of both kings plus one extra man, either side to move (thorough)",
     trusted_base=CORE_TRUST,
-    open=["C01_movegen_exact (model legals = Rules.legal_moves for every reachable board) is NOT proved in Coq; it is decided on every generated "
-          "position by the correspondence impl = model and the spec monitor impl = Rules"],
+    open=[],
 )
 PROPS["C02"] = dict(
     jobs=lambda ctx: pos_jobs(ctx, 500, 20000, 1, 1, 0, 0, families=False),
@@ -131,7 +130,7 @@ PROPS["C02"] = dict(
          "with Rules.make; 6 arbitrary/near-miss/legal (from,to,promotion) triples per position offered to the checked operations with the board "
          "compared (Debug text) before and after; clocks below 9999",
     trusted_base=CORE_TRUST,
-    open=["C02_apply_exact (abs (apply b m) = Rules.make (abs b) m) is NOT proved in Coq; decided on every generated (position, legal move)"],
+    open=[],
 )
 PROPS["C03"] = dict(
     jobs=lambda ctx: pos_jobs(ctx, 500, 20000, 1, 0, 0, 0, families=False) + [dict(sub=["checkfamily", q(ctx, 3000, 16), q(ctx, 16, 1)], shards=16, timeout=3000)],
@@ -140,7 +139,7 @@ PROPS["C03"] = dict(
          "from-scratch ones, and {legal moves, check, hash, text, Debug rendering, ==} of the moved board against to_string().parse(); per legal move "
          "the successor's derived state against from-scratch; check-giving families: en-passant captures with the enemy king on every square and an own slider behind (direct + discovered checks), promotions (incl. knight, capturing) with the enemy king on every square, castling with the enemy king on the rook's arrival file, mates/stalemates delivered at and beyond the 100-half-move boundary",
     trusted_base=CORE_TRUST,
-    open=["C03_fresh (a moved board equals the re-parsed one as a record) is NOT proved in Coq; decided on every generated position and successor"],
+    open=[],
 )
 PROPS["C04"] = dict(
     tables=["zobrist"],
@@ -150,7 +149,7 @@ PROPS["C04"] = dict(
          "legal move the implementation's zobrist() and piece hash against the hash of the same position built from scratch by the model parser "
          "(so boards with equal text have equal hash whatever move order produced them); builder sequences incl. rejected place() calls: built hash against the from-scratch hash",
     trusted_base=CORE_TRUST + ["translator for zobrist.rs, validated through zobrist()/castle_rights_zobrist()/en_passant_zobrist()/turn_zobrist()"],
-    open=["C04_incremental_statement (piece hash maintained by apply = from-scratch hash) is NOT proved in Coq; decided on every generated successor"],
+    open=[],
 )
 PROPS["C05"] = dict(
     jobs=lambda ctx: pos_jobs(ctx, 1300, 60000, 0, 0, 0, 0, families=False) + [dict(sub=["fen", q(ctx, 4000, 200000), q(ctx, 1, 4)], shards=q(ctx, 2, 16)),
@@ -160,8 +159,7 @@ PROPS["C05"] = dict(
          "the parser on writer output, structured random FEN text, every single-byte edit of seed FENs and random bytes; builder sequences compared with "
          "the parser on the same position (all fields incl. hash and derived state)",
     trusted_base=CORE_TRUST,
-    open=["C05_write_parse: the metadata tail (side, rights, marker, clocks <= 9999) is proved to round-trip (FenFacts.parse_tail_write_tail); the placement "
-          "half (run-length piece field) and C05_parse_write are NOT proved in Coq; decided on every generated board"],
+    open=[],
 )
 PROPS["C06"] = dict(
     jobs=lambda ctx: [dict(sub=["fen", q(ctx, 12000, 600000), q(ctx, 3, 12)], shards=q(ctx, 4, 16)),
@@ -172,7 +170,7 @@ PROPS["C06"] = dict(
          "length 0..120; result compared as Ok(all fields incl. hash, pins, checkers) / Err(kind + payload); every accepted board is checked with the "
          "rules-level `playable` predicate and must generate moves without panic; builder op sequences likewise; `distribution` = histogram of error kinds",
     trusted_base=CORE_TRUST,
-    open=["C06_playable_statement (validate = None implies Rules.playable) is NOT proved in Coq; evaluated on every accepted board (spec monitor)"],
+    open=[],
 )
 PROPS["C17"] = dict(
     tables=["book"],
@@ -195,7 +193,7 @@ PROPS["C11"] = dict(
          "roots additionally at k = 65535, 65536, 65537, 70000; (move, score, max_depth) compared with the poll-exact model, the returned move checked against "
          "Rules.legal_moves; checked (overflow/debug-assert) build",
     trusted_base=SEARCH_TRUST,
-    open=["C11_legal_statement, C11_none_statement, termination of the model's fuel are NOT proved in Coq; decided per run"],
+    open=[],
 )
 PROPS["C12"] = dict(
     jobs=lambda ctx: [dict(sub=["search", q(ctx, 25, 400), q(ctx, 500, 3000)], shards=16, timeout=3000)],
@@ -204,7 +202,7 @@ PROPS["C12"] = dict(
          "the first pass completed and a mate in one exists the returned move must be a mating move with the mate-in-one score of the mover; a mate-in-one score is "
          "only accepted with a mating move",
     trusted_base=SEARCH_TRUST,
-    open=["C12_honest_statement / C12_finds are NOT proved in Coq over the search model; decided per run"],
+    open=["C12_finds covers mating moves that are not captures leaving insufficient material (the shortcut runs before the mate test); that such a capture never mates is a fact of chess not proved here"],
 )
 PROPS["C13"] = dict(
     jobs=lambda ctx: [dict(sub=["mirror", q(ctx, 40, 600), q(ctx, 1500, 6000)], shards=16, timeout=3000)],
@@ -235,8 +233,7 @@ PROPS["C15"] = dict(
          "rights/marker differing -, random legal moves, illegal / near-miss moves, board(), evaluate with counting timeouts, re-set_board in mid-history); "
          "plus one 1200-move shuffle that repeats positions 300 times; monitor = list of rules-level positions since the last set_board",
     trusted_base=SEARCH_TRUST + ["model/Bot.v transcribes chess-bot/src/lib.rs; abi_stable loading/layout checks and HashMap (keyed by zobrist then PartialEq) are modelled, not verified"],
-    open=["C15_threefold_statement (hash-keyed table = occurrence count) is NOT proved in Coq; decided per run by the history monitor",
-          "interpretation: the position handed to set_board is not counted as an occurrence (neither the bot nor the CLI inserts it)"],
+    open=["interpretation: the position handed to set_board is not counted as an occurrence (neither the bot nor the CLI inserts it)"],
 )
 
 def c07_jobs(ctx):
@@ -268,6 +265,5 @@ PROPS["C07"] = dict(
          "assertions and std's unsafe-precondition checks (any violation = panic/abort seen as TRAP or as a dead harness) and in a plain release build",
     trusted_base=CORE_TRUST + ["memory safety of the unsafe blocks GIVEN their preconditions (set_mask's pointer walk, arrayvec, abi_stable) is Rust's / the crates', "
                               "not modelled: C07 is partial in that sense", "panic / abort detection: catch_unwind + process exit status"],
-    open=["a Gallina model cannot exhibit undefined behaviour; what is proved are preconditions of unchecked operations (index ranges, non-empty sets, capacity, "
-          "saturation), each under the stated invariant; invariant preservation by apply (kings never captured, partition kept) is decided by correspondence only"],
+    open=["a Gallina model cannot exhibit undefined behaviour; what is proved are the preconditions of the unchecked operations (index ranges, non-empty sets, capacity, saturation) under invariants that are now proved for every reachable board (Reachable_Good, Reachable_men); memory safety of the unsafe blocks GIVEN those preconditions is trusted"],
 )
